@@ -600,7 +600,8 @@ def write_replay(mod, modname, prop, seed, fam, i, plan, cls, rec, execs) -> str
         raise HarnessError(f"replay digests differ for {prop} {fam} {i}: {r1.get('digest')} {r2.get('digest')}")
     rec1 = [r for r in r1["records"] if vclass(r) == cls][0]
     d8 = (r1.get("digest") or "0" * 8)[:8]
-    rel = os.path.join("replays", f"{prop}-{seed}-{fam}-{i}-{d8}.json")
+    c8 = hashlib.sha256(canon(list(cls)).encode()).hexdigest()[:6]
+    rel = os.path.join("replays", f"{prop}-{seed}-{fam}-{i}-{d8}-{c8}.json")
     path = os.path.join(VERIF_DIR, rel)
     os.makedirs(os.path.dirname(path), exist_ok=True)
     with open(path, "w") as f:
